@@ -164,7 +164,7 @@ func (c *Ctx) recordSynTracesOnce(b *SynBatch, hs []*synHistory) []*synHistory {
 }
 
 // traceLines renders the histories as ndjson for LRTrace.tla.
-func synTraceLines(hs []*synHistory, dbg bool) ([]byte, []int) {
+func synTraceLines(hs []*synHistory, dbg bool, gmap map[int]int) ([]byte, []int) {
 	var buf bytes.Buffer
 	var ends []int // cumulative event count after each history
 	n := 0
@@ -190,7 +190,7 @@ func synTraceLines(hs []*synHistory, dbg bool) ([]byte, []int) {
 				hdbg = false
 			}
 		}
-		emit(map[string]any{"ev": "new", "g": h.CaseIx + 1, "id": k + 1, "dbg": hdbg})
+		emit(map[string]any{"ev": "new", "g": gmap[h.CaseIx] + 1, "id": k + 1, "dbg": hdbg})
 		for ii, in := range h.Inputs {
 			toks := in.Toks
 			if toks == nil {
@@ -213,9 +213,38 @@ func synTraceLines(hs []*synHistory, dbg bool) ([]byte, []int) {
 // over the canonical LR(1) tables when ideal is set). Returns the rejected histories with
 // the model state at the point of rejection.
 func (c *Ctx) validateSynTraces(cases []*SynCase, hs []*synHistory, ideal, dbg bool) []*synHistory {
+	// large sets of histories are validated in parallel chunks (one TLC each, one worker each:
+	// a trace specification is a line, not a graph); each chunk sees only the tables it needs
+	nchunks := len(hs)/600 + 1
+	if nchunks > 8 {
+		nchunks = 8
+	}
+	if nchunks <= 1 {
+		return c.validateSynChunk(cases, hs, ideal, dbg)
+	}
+	per := (len(hs) + nchunks - 1) / nchunks
+	res := make([][]*synHistory, nchunks)
+	parallel(nchunks, func(k int) {
+		lo, hi := k*per, min((k+1)*per, len(hs))
+		if lo < hi {
+			res[k] = c.validateSynChunk(cases, hs[lo:hi], ideal, dbg)
+		}
+	})
+	var rejected []*synHistory
+	for _, r := range res {
+		rejected = append(rejected, r...)
+	}
+	return rejected
+}
+
+func (c *Ctx) validateSynChunk(cases []*SynCase, hs []*synHistory, ideal, dbg bool) []*synHistory {
+	gmap := map[int]int{}
 	var entries []any
-	for _, cs := range cases {
-		entries = append(entries, cs.productEntry())
+	for _, h := range hs {
+		if _, ok := gmap[h.CaseIx]; !ok {
+			gmap[h.CaseIx] = len(entries)
+			entries = append(entries, cases[h.CaseIx].productEntry())
+		}
 	}
 	batch := mustJSON(entries)
 	cfg := "LRTrace_real.cfg"
@@ -225,7 +254,7 @@ func (c *Ctx) validateSynTraces(cases []*SynCase, hs []*synHistory, ideal, dbg b
 	var rejected []*synHistory
 	live := append([]*synHistory{}, hs...)
 	for round := 0; round < 8 && len(live) > 0; round++ {
-		lines, ends := synTraceLines(live, dbg)
+		lines, ends := synTraceLines(live, dbg, gmap)
 		r := c.RunTLC(TLCOpts{Module: "LRTrace", Cfg: cfg, Workers: 1, Timeout: 30 * time.Minute,
 			Files: map[string][]byte{"batch.json": batch, "trace.ndjson": lines}})
 		c.Add("states", r.Distinct)
@@ -265,6 +294,13 @@ func (c *Ctx) validateSynTraces(cases []*SynCase, hs []*synHistory, ideal, dbg b
 
 // sentences derives random sentences of the grammar (terminal ids), at most maxLen long.
 func (g *SynGrammar) randomSentence(rng *rand.Rand, maxLen int) ([]int, bool) {
+	return g.randomSentenceD(rng, maxLen, 6, 0)
+}
+
+// randomSentenceD: a random sentence whose derivation may be maxDepth deep; with probability
+// pRec an alternative that contains a nonterminal is preferred while the length budget lasts
+// (deep derivations: long recursive chains, cascades of reductions).
+func (g *SynGrammar) randomSentenceD(rng *rand.Rand, maxLen, maxDepth int, pRec float64) ([]int, bool) {
 	pr := g.productive()
 	if !pr[0] {
 		return nil, false
@@ -328,13 +364,27 @@ func (g *SynGrammar) randomSentence(rng *rand.Rand, maxLen int) ([]int, bool) {
 			return false
 		}
 		var p SynProd
-		if depth > 6 || len(out) >= budget {
-			if minProd[nt] < 0 || depth > 200 {
+		if depth > maxDepth || len(out) >= budget {
+			if minProd[nt] < 0 || depth > maxDepth+200 {
 				return false
 			}
 			p = g.Prods[minProd[nt]]
 		} else {
 			p = cands[rng.Intn(len(cands))]
+			if pRec > 0 && rng.Float64() < pRec {
+				var rec []SynProd
+				for _, q := range cands {
+					for _, s := range q.Body {
+						if s.NT {
+							rec = append(rec, q)
+							break
+						}
+					}
+				}
+				if len(rec) > 0 {
+					p = rec[rng.Intn(len(rec))]
+				}
+			}
 		}
 		for _, s := range p.Body {
 			if s.NT {
@@ -392,6 +442,12 @@ func synInputs(rng *rand.Rand, g *SynGrammar, k, cap, nSent int, withInvalid boo
 				p[j] = alpha[rng.Intn(len(alpha))]
 			}
 			all = append(all, p)
+		}
+	}
+	// two deep sentences: recursion chains longer than the parser has states
+	for i := 0; i < 2; i++ {
+		if s, ok := g.randomSentenceD(rng, 60+rng.Intn(60), 90, 0.85); ok && len(s) > 24 {
+			all = append(all, s)
 		}
 	}
 	for i := 0; i < nSent; i++ {
